@@ -205,13 +205,13 @@ CONFIG = {
         "json.Marshal of the manifest document is a parameter (marshal : manifest -> str); the model's manifest record is the JSON-level document after omitempty; the harness re-parses the stored bytes with encoding/json and compares the document field by field",
         "C19_annotation_order_independent assumes marshal_perm: the marshalled bytes do not depend on the order in which a map's entries are listed (encoding/json sorts map keys); the harness checks it on every successful call (annotations re-inserted in reverse order into maps of another capacity; raw stored JSON walked for sorted annotation keys)",
         "the digest function is a parameter H with the single hypothesis H \"{}\" = sha256:44136f...; collision-freeness of H is an explicit premise of the clauses that conclude equality of stored bytes",
-        "the validation of a caller-supplied created value (time.Parse(time.RFC3339, _) followed by the explicit strict checks added by the fix of finding created-lenient) is modelled by the recogniser rfc3339_ok, proved equal to the RFC 3339 section 5.6 grammar with upper-case T/Z and no leap second; every disagreement with the real code (observed through PackManifest, go1.26.8 time package) is a correspondence failure; time.Now().UTC().Format(RFC3339) is the parameter `now` (the harness checks the generated value parses and lies within the call)",
+        "the validation of a caller-supplied created value is modelled as the code is written: time.Parse(time.RFC3339, _) = the lenient recogniser rfc3339_gen false (step-by-step mirror of time.parse for that layout), followed by the explicit strict checks of validateRFC3339, which the translator (kind strictchecks) re-reads from pack.go on every run into Generated/GC19.v; the combination is proved equal to the strict recogniser and to the RFC 3339 section 5.6 grammar with upper-case T/Z and no leap second; the lenient recogniser itself is tied to the real time.Parse of go1.26.8 only by the correspondence run (observed through PackManifest); time.Now().UTC().Format(RFC3339) is the parameter `now` (the harness checks the generated value parses and lies within the call)",
         "Go regexp semantics for the ASCII-only, fully anchored mediaTypeRegexp = Base/Regex.v Lang (proved equal to the derivative matcher)",
         "the target is modelled as a content store keyed by digest (OCI layout), by media type+digest+size (memory), by digest within the manifest/blob namespace (registry) or as a file store (named files answer Exists by digest, unnamed content lives in the full-key fallback; descriptors Pack itself pushes carry no title annotation), optionally implementing Exists, possibly pre-filled, with at most one injected failing storage operation; stores verify pushed content, which the model omits because every push of Pack is proved content-consistent (C19_store_stays_content_addressed)",
         "constants of image-spec v1.1.1 (media types, annotation key, DescriptorEmptyJSON) are hand-written in the model and tied by the correspondence run; the oras-go constants and mediaTypeRegexp are regenerated from pack.go / internal/spec/artifact.go",
         "a config blob whose caller-chosen media type is itself a manifest media type (artifactType = application/vnd.oci.image.manifest.v1+json under v1.0 / Pack) is present in the target but is walked as a manifest by CopyGraph; the copy oracle does not judge such calls (caller inconsistency); the registry target is a minimal in-process distribution endpoint (no manifest validation, referrers API reported as supported)",
     ],
-    "level_text": "Coq theorems for all inputs: mediaTypeRegexp (re-translated from pack.go on every run) = RFC 6838 restricted-name/restricted-name; every run of the four packers over any target (key discipline, Exists or not, any prior content, any single storage fault) has one of five outcomes; rejections (invalid media type, subject under v1.0, missing artifact type, unknown version) leave the state untouched; the created validation accepts exactly the RFC 3339 date-times with upper-case T/Z and no leap second, so a created value that is not RFC 3339 gives an error with no manifest push and only the blob {} added (the pre-fix validation, time.Parse alone, is refuted by a witness); on success the manifest equals the requested document with the documented placeholders and a parsing created annotation, the descriptor is digest/size/media type of the marshalled bytes and is stored, every invented blob is stored with content {}, every successor is caller-supplied or stored, content-addressed stores stay so, and a fixed created annotation makes descriptor and manifest independent of target, clock and faults",
+    "level_text": "Coq theorems for all inputs: mediaTypeRegexp (re-translated from pack.go on every run) = RFC 6838 restricted-name/restricted-name; every run of the four packers over any target (key discipline, Exists or not, any prior content, any single storage fault) has one of five outcomes; rejections (invalid media type, subject under v1.0, missing artifact type, unknown version) leave the state untouched; the created validation accepts exactly the RFC 3339 date-times with upper-case T/Z and no leap second, so a created value that is not RFC 3339 gives an error with no manifest push and only the blob {} added (the pre-fix validation, time.Parse alone, is refuted by a witness); on success the manifest equals the requested document with the documented placeholders and a parsing created annotation, the descriptor is digest/size/media type of the marshalled bytes and is stored, every invented blob is stored with content {}, every successor is caller-supplied or stored, content-addressed stores stay so, a fixed created annotation makes descriptor and manifest independent of target, clock and faults, and (json.Marshal sorting map keys) of the order in which annotations are listed",
     "level_note": "json.Marshal and the digest are parameters (H \"{}\" fixed; collision-freeness an explicit premise where bytes are compared); the created validation is modelled by a recogniser (proved = RFC 3339 subset) validated against the real code on every run; image-spec constants hand-written; targets: memory, OCI layout, file store, remote.Repository over an in-process distribution endpoint; calls that type the invented config as a manifest are not judged by the copy oracle",
     "technique": "machine-checked proof in Coq + translator-regenerated definitions + model/implementation correspondence",
     "explanation": "theorems over all inputs, targets, prior contents and single storage faults about the model of pack.go whose regex/constants are regenerated from the source; differential run of model vs PackManifest/Pack over recording memory/OCI/file targets, exhaustive small-alphabet + boundary + mutated media types and timestamps against validateMediaType (through PackManifest) and time.Parse; independent oracle: RFC 6838 recogniser, stored bytes re-fetched, re-hashed and re-parsed against the generator's ground truth, invented blobs fetched, CopyGraph into an empty store, repeat calls for determinism, no push on rejection",
